@@ -86,6 +86,11 @@ def event_projects():
     P.append(("one-event-two-sites-distinct-payload-types", [("lib.rs", a + only + "pub fn f1(app: AppHandle, x: OnlyFirstSite) {\n    app.emit(\"changed\", x).unwrap();\n}\n\n"
                                                                            "pub fn f2(app: AppHandle, y: OnlySecondSite) {\n    app.emit(\"changed\", y).unwrap();\n}\n\n"
                                                                            "pub fn f3(app: AppHandle) {\n    app.emit(\"changed\", 3).unwrap();\n}\n")]))
+    # payloads whose type the source does not spell out: whatever the listener says, it says it with names that exist
+    P.append(("payload-variables-of-untold-type", [("lib.rs", a + "pub fn f1(app: AppHandle) {\n    let job = compute();\n    app.emit(\"job-done\", job).unwrap();\n    let (left, _right) = halves();\n"
+                                                               "    app.emit(\"left-half\", &left).unwrap();\n    for item in items() {\n        app.emit(\"item-seen\", item).unwrap();\n    }\n"
+                                                               "    if let Some(found) = lookup() {\n        app.emit(\"found\", found.clone()).unwrap();\n    }\n"
+                                                               "    let notify = |progress| app.emit(\"progress\", progress).unwrap();\n    notify(1);\n}\n")]))
     P.append(("no-events", [("lib.rs", a)]))
     # no command takes anything from the frontend: commands.ts still needs its `types` import for what the commands return
     for k, rets in enumerate((["Vec<Foo>"], ["Option<Foo>", "Result<Vec<Kind>, String>"], ["HashMap<String, Wrap>", "(Foo, Kind)"], ["Result<Option<Vec<Foo>>, String>"], ["Foo"], ["Vec<Foo>", "i32"])):
@@ -99,6 +104,19 @@ def event_projects():
                                                                         rg.command_src("search", [("query", "ListAllParams")], "Vec<Foo>"))]))
     P.append(("struct-named-like-a-numbered-parameter-object", [("lib.rs", a + rg.struct_src("GetUserParams", [("id", "i32")]) + rg.struct_src("GetUser2Params", [("id", "i32")]) +
                                                                   rg.command_src("get_user", [("params", "GetUserParams"), ("more", "GetUser2Params")], "Foo"))]))
+    # ... the same struct name, reachable only through an event payload (directly / as a field of the payload / through a channel message)
+    emitp = "pub fn announce(app: AppHandle, p: %s) {\n    app.emit(\"job-announced\", p).unwrap();\n}\n\n"
+    P.append(("event-only-struct-named-like-a-commands-parameter-object", [("lib.rs", a + rg.struct_src("StartJobParams", [("id", "i32")]) + emitp % "StartJobParams" +
+                                                                             rg.command_src("start_job", [("name", "String"), ("retries", "u8")], "Foo"))]))
+    P.append(("event-only-nested-struct-named-like-a-commands-parameter-object", [("lib.rs", a + rg.struct_src("StartJobParams", [("id", "i32")]) +
+                                                                                    rg.struct_src("JobAnnouncement", [("params", "Option<StartJobParams>")]) + emitp % "JobAnnouncement" +
+                                                                                    rg.command_src("start_job", [("on_log", "Channel<String>")], "Foo"))]))
+    P.append(("channel-only-struct-named-like-a-commands-parameter-object", [("lib.rs", a + rg.struct_src("StartJobParams", [("id", "i32")]) +
+                                                                               rg.command_src("watch", [("on_item", "Channel<StartJobParams>")], "i32") +
+                                                                               rg.command_src("start_job", [("name", "String")], "Foo"))]))
+    P.append(("returned-struct-named-like-a-commands-parameter-object", [("lib.rs", a + rg.struct_src("StartJobParams", [("id", "i32")]) +
+                                                                           rg.command_src("last_params", [], "Vec<StartJobParams>") +
+                                                                           rg.command_src("start_job", [("name", "String")], "Foo"))]))
     # Channel has a default message type: the path-qualified name alone is Tauri's channel too (a bare `Channel` is taken for a
     # project type by design, so it falls under the statement's premise)
     for k, ty in enumerate(("tauri::ipc::Channel", "tauri::ipc::Channel<>")):
